@@ -477,3 +477,37 @@ pub fn etrade_line_cases() -> Vec<Value> {
     }
     out
 }
+
+/// a valid Questrade export (every activity kind once) with each single cell of its first rows
+/// replaced by each of a few damaged values, written as real .xlsx files
+pub fn qt_cell_cases(seed: u64) -> Vec<Value> {
+    let mut out = Vec::new();
+    for lay in [0u64, 3] {
+        let qt = crate::qt::gen_qt_case(seed, 1);
+        let rows: Vec<Value> = qt["rows"].as_array().unwrap().iter().take(12).cloned().collect();
+        let base = crate::qt::build_range(&rows, lay, false);
+        let (h, w) = base.get_size();
+        for r in 0..h.min(9) {
+            for c in 0..w {
+                for (dk, dv) in [
+                    ("empty", office::DataType::Empty),
+                    ("text", office::DataType::String("abc".into())),
+                    ("nan", office::DataType::Float(f64::NAN)),
+                    ("date", office::DataType::String("2021-13-45 12:00:00 AM".into())),
+                    ("neg", office::DataType::Float(-12.5)),
+                ] {
+                    let mut rg = base.clone();
+                    rg.set_value((r as u32, c as u32), dv);
+                    let tmp = std::env::temp_dir().join(format!("acbverif_qtc_{}_{}_{}_{}_{}.xlsx", std::process::id(), lay, r, c, dk));
+                    if crate::qt::write_range_xlsx(&rg, &tmp).is_err() {
+                        continue;
+                    }
+                    let bytes = std::fs::read(&tmp).unwrap_or_default();
+                    let _ = std::fs::remove_file(&tmp);
+                    out.push(json!({"id": "qtc", "kind": "bytes", "fe": "txconv", "header": format!("layout{lay}:r{r}:c{c}:{dk}"), "rows": [], "vals": "plain", "opts": [], "opening": "none", "bytes": bytes}));
+                }
+            }
+        }
+    }
+    out
+}
